@@ -16,22 +16,17 @@ ALGS = ['no', 'inf', 'lfu', 'lru', 'mru', 'rr']
 ALG_ID = {a: i for i, a in enumerate(ALGS)}
 BACKENDS = ['plain', 'dict0', 'null', 'dictarch', 'file', 'dir', 'sql',
             'direct-dict', 'direct-file', 'direct-dir']
-KEYMAPS = ['hash', 'raw', 'str', 'pickle', 'md5', 'raw-nf', 'str-nf', 'hash-typed', 'default']
+KEYMAPS = ['hash', 'raw', 'str', 'pickle', 'md5', 'raw-nf', 'str-nf', 'hash-typed', 'default', 'md5-typed', 'pickle-std', 'raw-typed']
 UNHASH = 'U'      # an unhashable argument ([1, 2])
-UNENC = 'F'       # an argument no keymap can encode (a generator)
+UNENC = 'F'       # an argument repr-free encoders cannot handle (a generator)
+LAMBDA = 'L'      # an argument stdlib pickle rejects with PicklingError (a lambda)
+UNHASHF = 'UF'    # an unhashable argument holding floats ([1.26, 2.52])
+NONE_CODE = -7777  # how a result of None crosses the integer boundary of the model
+FLOATS = [21.26, 21.31, 22.52, 27.0, 21.349]   # never equal to an integer argument code, rounded or not
 
 
 class UserError(Exception):
     pass
-
-
-def g(a):
-    """the deterministic function being memoized (values are ints so they survive every backend)"""
-    if a == UNHASH:
-        return 777
-    if a == UNENC:
-        return 778
-    return 100 + 3 * a
 
 
 def _gen():
@@ -39,14 +34,83 @@ def _gen():
 
 
 _UNENC_OBJ = _gen()
+_LAMBDA_OBJ = lambda: 0  # noqa: E731
 
 
-def realarg(a):
+def realcall(a):
+    """the concrete call an argument code stands for: (args, kwds)"""
     if a == UNHASH:
-        return [1, 2]
+        return ([1, 2],), {}
+    if a == UNHASHF:
+        return ([21.26, 22.52],), {}
     if a == UNENC:
-        return _UNENC_OBJ
-    return a
+        return (_UNENC_OBJ,), {}
+    if a == LAMBDA:
+        return (_LAMBDA_OBJ,), {}
+    if isinstance(a, (tuple, list)):
+        kind = a[0]
+        if kind == 'f':
+            return (FLOATS[a[1] % len(FLOATS)],), {}
+        if kind == 's':
+            return (str(a[1]),), {}
+        if kind == 't':      # equal values, different types, different ways of writing the call
+            return [((1, 1.0), {}), ((), {'y': 1, 'x': 1.0}), ((True, 1.0), {}), ((1.0,), {'y': True}),
+                    ((1, 1), {}), ((), {'y': 1.0, 'x': 1.0})][a[1] % 6]
+    return (a,), {}
+
+
+def tcode(v):
+    return {bool: 1, int: 2, float: 3}.get(type(v), 4)
+
+
+def G(x, y, tol=None, none_arg=None, typed=False):
+    """the deterministic function being memoized, as a function of the values it receives"""
+    if isinstance(x, list):
+        return 777 if all(isinstance(t, int) for t in x) else 779
+    if x is _UNENC_OBJ:
+        return 778
+    if callable(x):
+        return 780
+    if isinstance(x, str):
+        return 900 + int(x)
+    if y != 0 or isinstance(y, float):
+        if typed:
+            return 500 + tcode(x) * 10 + tcode(y)
+        return 500
+    if isinstance(x, float):
+        return 5000 + int(round(round(x, tol) if tol is not None else x, 6) * 1000)
+    if none_arg is not None and x == none_arg:
+        return None
+    return 100 + 3 * x
+
+
+def g_cfg(cfg, a):
+    (args, kwds) = realcall(a)
+    x = args[0] if args else kwds.get('x')
+    y = args[1] if len(args) > 1 else kwds.get('y', 0)
+    return G(x, y, cfg.get('tol'), cfg.get('none_arg'), 'typed' in cfg.get('keymap', ''))
+
+
+def g(a):
+    """value for plain integer argument codes (configuration independent)"""
+    return g_cfg({}, a)
+
+
+def vcode(v):
+    return NONE_CODE if v is None else v
+
+
+def _code_of(x, y):
+    """argument code of the values a stub received (for the 'raising' set)"""
+    if isinstance(x, list):
+        return UNHASH if all(isinstance(t, int) for t in x) else UNHASHF
+    if x is _UNENC_OBJ:
+        return UNENC
+    if callable(x):
+        return LAMBDA
+    if type(x) is int and y == 0 and not isinstance(y, float):
+        return x
+    return None
 
 
 def _klepto():
@@ -78,6 +142,12 @@ def make_keymap(name):
         return km.picklemap(flat=True)
     if name == 'md5':
         return km.hashmap(flat=True, algorithm='md5')
+    if name == 'md5-typed':
+        return km.hashmap(flat=True, algorithm='md5', typed=True)
+    if name == 'pickle-std':
+        return km.picklemap(flat=True, serializer='pickle')
+    if name == 'raw-typed':
+        return km.keymap(flat=True, typed=True)
     raise ValueError(name)
 
 
@@ -118,13 +188,25 @@ class Impl:
         raising = set(cfg.get('raising', []))
         log = self.log
 
-        def stub(x):
-            log.append(x if not isinstance(x, list) and x is not _UNENC_OBJ else
-                       (UNHASH if isinstance(x, list) else UNENC))
-            a = UNHASH if isinstance(x, list) else (UNENC if x is _UNENC_OBJ else x)
-            if a in raising:
-                raise UserError(a)
-            return g(a)
+        tol = cfg.get('tol')
+        none_arg = cfg.get('none_arg')
+        typed = 'typed' in cfg.get('keymap', '')
+        received = self.received = []
+
+        def body(x, y):
+            log.append(1)
+            received.append((x, y))
+            code = _code_of(x, y)
+            if code in raising:
+                raise UserError(code)
+            return G(x, y, tol, none_arg, typed)
+
+        if cfg.get('stub') == 'var':
+            def stub(*a):
+                return body(a[0], a[1] if len(a) > 1 else 0)
+        else:
+            def stub(x, y=0):
+                return body(x, y)
 
         self.stub = stub
         mod = k.safe if cfg['safe'] else k
@@ -138,6 +220,10 @@ class Impl:
             kw['keymap'] = km
         if cfg.get('purge') is not None:
             kw['purge'] = cfg['purge']
+        if cfg.get('tol') is not None:
+            kw['tol'] = cfg['tol']
+        if cfg.get('deep'):
+            kw['deep'] = True
         pos = ()
         how = cfg.get('maxhow', 'kw')
         if how == 'kw':
@@ -164,7 +250,8 @@ class Impl:
     def classify(self, a):
         """keyres of the call f(a): ('ok', id) | ('fail',) | ('unhash',)"""
         try:
-            key = self.f.key(realarg(a))
+            ar, kwd = realcall(a)
+            key = self.f.key(*ar, **kwd)
         except Exception:
             return ('fail',)
         try:
@@ -185,16 +272,16 @@ class Impl:
         import klepto._archives as _ar
         if isinstance(arch, _ar.null_archive):
             return None
-        return {self.kid(k): v for k, v in dict(arch.items()).items()}
+        return {self.kid(k): vcode(v) for k, v in dict(arch.items()).items()}
 
     def observe(self):
         f = self.f
         c = f.__cache__()
         if self.direct:
-            mem = {self.kid(k): v for k, v in dict(c.items()).items()}
+            mem = {self.kid(k): vcode(v) for k, v in dict(c.items()).items()}
             arch = swp = None
         else:
-            mem = {self.kid(k): v for k, v in dict.items(c)}
+            mem = {self.kid(k): vcode(v) for k, v in dict.items(c)}
             arch = self._amap(c.archive)
             swp = self._amap(getattr(c, '__swap__'))
         cells = {}
@@ -235,19 +322,25 @@ class Impl:
                 random.choice = choice
                 self.choice = None
                 try:
-                    r = f(realarg(a))
+                    ar, kwd = realcall(a)
+                    extra['passed'] = (ar, kwd)
+                    r = f(*ar, **kwd)
                 finally:
                     random.choice = orig
                     if self.choice is not None:
                         extra['orc'] = self.kid(self.choice)
                         extra['orc_resident'] = None
-                out = ('ret', r, len(self.log) - n0)
+                out = ('ret', vcode(r), len(self.log) - n0)
+                if len(self.log) > n0:
+                    extra['received'] = self.received[-1]
             elif kind == 'lookup':
                 extra['kr'] = self.classify(op[1])
-                out = ('val', f.lookup(realarg(op[1])))
+                ar, kwd = realcall(op[1])
+                out = ('val', vcode(f.lookup(*ar, **kwd)))
             elif kind == 'key':
                 extra['kr'] = self.classify(op[1])
-                k = f.key(realarg(op[1]))
+                ar, kwd = realcall(op[1])
+                k = f.key(*ar, **kwd)
                 try:
                     hash(k)
                     out = ('key', self.kid(k))
@@ -277,13 +370,13 @@ class Impl:
                 else:
                     new = ar.dict_archive('fresh', cached=False)
                     for a in op[1]:
-                        new[self.keyof(a)] = g(a)
+                        new[self.keyof(a)] = g_cfg(self.cfg, a)
                 f.archive(new)
                 out = ('unit',)
             elif kind == 'archset':
                 # another user of the attached archive stores the result for argument op[1]
                 c = f.__cache__()
-                v = g(op[1]) if len(op) < 3 else op[2]
+                v = g_cfg(self.cfg, op[1]) if len(op) < 3 else op[2]
                 if not self.direct:
                     c.archive[self.keyof(op[1])] = v
                 out = ('unit',)
@@ -361,7 +454,7 @@ def op_line(cfg, r):
         return {'ok': '0 %d' % (kr[1] if len(kr) > 1 else 0), 'fail': '1 0', 'unhash': '2 0'}[kr[0]]
     if kind == 'call':
         a = op[1]
-        fr = '1 0' if a in raising else '0 %d' % g(a)
+        fr = '1 0' if a in raising else '0 %d' % vcode(g_cfg(cfg, a))
         return 'call %s %s %d' % (krs(), fr, ex.get('orc', 0))
     if kind == 'lookup':
         return 'lookup ' + krs()
@@ -378,9 +471,9 @@ def op_line(cfg, r):
     if kind == 'setarch':
         if op[1] is None:
             return 'setarch -'
-        return 'setarch' + ''.join(' %d %d' % (k, g(a)) for k, a in zip(ex['kids'], op[1]))
+        return 'setarch' + ''.join(' %d %d' % (k, vcode(g_cfg(cfg, a))) for k, a in zip(ex['kids'], op[1]))
     if kind == 'archset':
-        return 'archset %d %d' % (ex['kids'][0], g(op[1]) if len(op) < 3 else op[2])
+        return 'archset %d %d' % (ex['kids'][0], vcode(g_cfg(cfg, op[1])) if len(op) < 3 else op[2])
     raise ValueError(op)
 
 
